@@ -1179,7 +1179,12 @@ void NifFile::TrimTexturePaths() {
 			return tex;
 
 		// Replace multiple slashes or forward slashes with one backslash
-		tex = std::regex_replace(tex, std::regex("/+|\\\\+"), "\\");
+		tex = std::regex_replace(tex, std::regex("[/\\\\]+"), "\\");
+
+		// Terrain paths get a "Data\" prefix below: remove an existing one first,
+		// so that cleaning an already cleaned terrain path does not change it
+		if (isTerrain)
+			tex = std::regex_replace(tex, std::regex("^\\\\*Data\\\\", std::regex_constants::icase), "");
 
 		// Search for the first occurrence of "\textures\" (only if "textures\" isn't at the start)
 		std::smatch match;
@@ -1224,24 +1229,25 @@ void NifFile::TrimTexturePaths() {
 					std::string tex = i.get();
 					i.get() = fTrimPath(tex);
 				}
+			}
 
-				auto effectShader = dynamic_cast<BSEffectShaderProperty*>(shader);
-				if (effectShader) {
-					std::string tex = effectShader->sourceTexture.get();
-					effectShader->sourceTexture.get() = fTrimPath(tex);
+			// Effect shaders have no texture set, their texture paths are stored in the shader itself
+			auto effectShader = dynamic_cast<BSEffectShaderProperty*>(shader);
+			if (effectShader) {
+				std::string tex = effectShader->sourceTexture.get();
+				effectShader->sourceTexture.get() = fTrimPath(tex);
 
-					tex = effectShader->normalTexture.get();
-					effectShader->normalTexture.get() = fTrimPath(tex);
+				tex = effectShader->normalTexture.get();
+				effectShader->normalTexture.get() = fTrimPath(tex);
 
-					tex = effectShader->greyscaleTexture.get();
-					effectShader->greyscaleTexture.get() = fTrimPath(tex);
+				tex = effectShader->greyscaleTexture.get();
+				effectShader->greyscaleTexture.get() = fTrimPath(tex);
 
-					tex = effectShader->envMapTexture.get();
-					effectShader->envMapTexture.get() = fTrimPath(tex);
+				tex = effectShader->envMapTexture.get();
+				effectShader->envMapTexture.get() = fTrimPath(tex);
 
-					tex = effectShader->envMaskTexture.get();
-					effectShader->envMaskTexture.get() = fTrimPath(tex);
-				}
+				tex = effectShader->envMaskTexture.get();
+				effectShader->envMaskTexture.get() = fTrimPath(tex);
 			}
 		}
 
